@@ -201,10 +201,13 @@ class EpochManager
     {
       // go to the target node
       const auto upper_epoch = epoch & kUpperMask;
+      CPP_UTILITY_VERIF_POINT("epoch.walk");
       while (node->upper_epoch_ > upper_epoch) {
+        CPP_UTILITY_VERIF_POINT("epoch.walk");
         node = node->next;
       }
 
+      CPP_UTILITY_VERIF_POINT("epoch.walk");
       return node->epoch_lists_.at(epoch & kLowerMask);
     }
 
